@@ -48,8 +48,16 @@ pub enum Fmt {
     Json,
     Ron,
     MsgPack,
+    /// JSON bytes decoded through `serde_json::from_reader`: nothing can be borrowed from the input
+    /// (strings arrive as transient `visit_str`)
+    JsonReader,
+    /// JSON bytes parsed into a `serde_json::Value` and decoded with `from_value` (owned `visit_string`,
+    /// numbers re-typed through u64/i64/f64)
+    JsonValue,
 }
 pub const FMTS: [Fmt; 3] = [Fmt::Json, Fmt::Ron, Fmt::MsgPack];
+/// the encoders above plus the two further decoders of JSON bytes
+pub const ALL_FMTS: [Fmt; 5] = [Fmt::Json, Fmt::Ron, Fmt::MsgPack, Fmt::JsonReader, Fmt::JsonValue];
 
 #[derive(Clone, Copy, Debug, PartialEq, Eq)]
 pub enum Pos {
@@ -172,6 +180,8 @@ pub struct Vt<I: 'static> {
     pub ser_ref: Option<fn(I, Fmt) -> Result<Vec<u8>, String>>,
     /// deserialize_in_place into an existing value built from the first argument: (succeeded, value afterwards)
     pub de_in_place: Option<fn(I, Fmt, &[u8]) -> Option<(bool, I)>>,
+    /// Deserialize through serde's in-memory value deserializers built from an inner value (see `glue::de_value`)
+    pub de_value: Option<fn(I, u8) -> Option<Result<I, String>>>,
     pub ser: Option<fn(I, Fmt) -> Option<Result<Vec<u8>, String>>>,
     pub arbitrary: Option<fn(&[u8]) -> Result<I, String>>,
 
@@ -236,6 +246,7 @@ impl<I: 'static> Vt<I> {
             de_key: None,
             de_ref: None,
             de_in_place: None,
+            de_value: None,
             ser_ref: None,
             ser: None,
             arbitrary: None,
@@ -347,10 +358,75 @@ pub trait InnerTy:
     fn inner_partial_cmp(&self, o: &Self) -> Option<Option<Ordering>>;
 }
 
+/// A hasher that distinguishes *which* `Hasher` method delivered each piece of data (`write_u32(x)` differs
+/// from `write(&x.to_ne_bytes())`): hashers such as FxHash specialise the integer methods, so a newtype
+/// whose `Hash` feeds the same bytes through another method misses in a map keyed by the borrowed form,
+/// although SipHash would not show it.
+pub struct CallRecordingHasher(u64);
+
+impl Default for CallRecordingHasher {
+    fn default() -> Self {
+        CallRecordingHasher(0xcbf29ce484222325)
+    }
+}
+
+impl CallRecordingHasher {
+    fn feed(&mut self, tag: u8, bytes: &[u8]) {
+        for b in std::iter::once(tag).chain((bytes.len() as u32).to_le_bytes()).chain(bytes.iter().copied()) {
+            self.0 ^= b as u64;
+            self.0 = self.0.wrapping_mul(0x100000001b3);
+        }
+    }
+}
+
+impl std::hash::Hasher for CallRecordingHasher {
+    fn finish(&self) -> u64 {
+        self.0
+    }
+    fn write(&mut self, bytes: &[u8]) {
+        self.feed(0, bytes)
+    }
+    fn write_u8(&mut self, i: u8) {
+        self.feed(1, &i.to_le_bytes())
+    }
+    fn write_u16(&mut self, i: u16) {
+        self.feed(2, &i.to_le_bytes())
+    }
+    fn write_u32(&mut self, i: u32) {
+        self.feed(3, &i.to_le_bytes())
+    }
+    fn write_u64(&mut self, i: u64) {
+        self.feed(4, &i.to_le_bytes())
+    }
+    fn write_u128(&mut self, i: u128) {
+        self.feed(5, &i.to_le_bytes())
+    }
+    fn write_usize(&mut self, i: usize) {
+        self.feed(6, &i.to_le_bytes())
+    }
+    fn write_i8(&mut self, i: i8) {
+        self.feed(7, &i.to_le_bytes())
+    }
+    fn write_i16(&mut self, i: i16) {
+        self.feed(8, &i.to_le_bytes())
+    }
+    fn write_i32(&mut self, i: i32) {
+        self.feed(9, &i.to_le_bytes())
+    }
+    fn write_i64(&mut self, i: i64) {
+        self.feed(10, &i.to_le_bytes())
+    }
+    fn write_i128(&mut self, i: i128) {
+        self.feed(11, &i.to_le_bytes())
+    }
+    fn write_isize(&mut self, i: isize) {
+        self.feed(12, &i.to_le_bytes())
+    }
+}
+
 pub fn fixed_hash<T: std::hash::Hash + ?Sized>(t: &T) -> u64 {
     use std::hash::Hasher;
-    #[allow(deprecated)]
-    let mut h = std::hash::SipHasher::new_with_keys(0x5eed, 0xc0ffee);
+    let mut h = CallRecordingHasher(0xcbf29ce484222325);
     t.hash(&mut h);
     h.finish()
 }
@@ -558,6 +634,42 @@ impl InnerTy for Point {
     }
 }
 
+/// byte buffers: the one sequence type serde has a second data-model representation for (`bytes`)
+impl InnerTy for Vec<u8> {
+    const NAME: &'static str = "Vec<u8>";
+    const KIND: Kind = Kind::Other;
+    fn same(&self, o: &Self) -> bool {
+        self == o
+    }
+    fn key(&self) -> Vec<u8> {
+        self.clone()
+    }
+    fn to_json(&self) -> Value {
+        json!(self)
+    }
+    fn from_json(v: &Value) -> Option<Self> {
+        serde_json::from_value(v.clone()).ok()
+    }
+    fn weight(&self) -> u128 {
+        ((self.len() as u128) << 64) | self.iter().map(|x| *x as u128).sum::<u128>()
+    }
+    fn hash_borrowed(&self) -> Option<u64> {
+        Some(fixed_hash(self))
+    }
+    fn display_(&self) -> Option<String> {
+        None
+    }
+    fn parse_(_s: &str) -> Option<Result<Self, String>> {
+        None
+    }
+    fn inner_eq(&self, o: &Self) -> bool {
+        self == o
+    }
+    fn inner_partial_cmp(&self, o: &Self) -> Option<Option<Ordering>> {
+        Some(self.partial_cmp(o))
+    }
+}
+
 /// Inner type of lifetime-parameterised declarations `struct W<'a>(Cow<'a, [f32]>)`, instantiated at `'static`.
 /// Its `PartialEq` is not reflexive (NaN elements) and it has no `Eq`/`Ord`/`Hash`.
 pub type CowF = std::borrow::Cow<'static, [f32]>;
@@ -622,6 +734,7 @@ pub enum Entry {
     VecI32(&'static Vt<Vec<i32>>),
     Point(&'static Vt<Point>),
     CowF32(&'static Vt<CowF>),
+    VecU8(&'static Vt<Vec<u8>>),
 }
 
 /// Dispatch a generic function over the inner type of an entry.
@@ -647,6 +760,7 @@ macro_rules! with_entry {
             $crate::types::Entry::VecI32($vt) => $body,
             $crate::types::Entry::Point($vt) => $body,
             $crate::types::Entry::CowF32($vt) => $body,
+            $crate::types::Entry::VecU8($vt) => $body,
         }
     };
 }
